@@ -236,6 +236,9 @@ TSStateId ts_language_next_state(
 ) {
   if (symbol == ts_builtin_sym_error || symbol == ts_builtin_sym_error_repeat) {
     return 0;
+  } else if (state >= self->state_count) {
+    // Not a state of this language, e.g. the parse state of a node that has none.
+    return 0;
   } else if (symbol < self->token_count) {
     uint32_t count;
     const TSParseAction *actions = ts_language_actions(self, state, symbol, &count);
